@@ -131,3 +131,39 @@ pub proof fn lemma_geom_bounds(s: Seq<char>)
 {
     if s.len() > 0 { lemma_geom_bounds(s.drop_last()); }
 }
+/// one iteration of the `write` loop, as text: piece k of the chunk is appended after a line feed (k > 0), behind the
+/// pending indentation when the piece is not empty
+//@ lemma [textgeom.write_step] lemma_write_step
+pub proof fn lemma_write_step(p: Seq<Seq<char>>, k: int, ind: nat, pend0: bool)
+    requires 0 <= k < p.len(), !p[k].contains('\n')
+    ensures ({
+        let j0 = joined_upto(p, '\n', k);
+        let j1 = joined_upto(p, '\n', k + 1);
+        let pend = if k > 0 { true } else { pend0 };
+        &&& indented(j1, ind, pend0) == indented(j0, ind, pend0) + (if k > 0 { seq!['\n'] } else { Seq::<char>::empty() })
+                + (if p[k].len() == 0 { Seq::<char>::empty() } else if pend { spaces(ind) + p[k] } else { p[k] })
+        &&& pending_after(j1, pend0) == (if p[k].len() == 0 { pend } else { false })
+        &&& (k > 0 ==> pending_after(j0 + seq!['\n'], pend0))
+    })
+{
+    let j0 = joined_upto(p, '\n', k);
+    let j1 = joined_upto(p, '\n', k + 1);
+    let line = p[k];
+    lemma_joined_step(p, '\n', k);
+    if line.len() > 0 { assert(line.last() != '\n') by { assert(line.contains(line.last())); } }
+    if k == 0 {
+        assert(j0 =~= Seq::<char>::empty());
+        lemma_indented_line(line, ind, pend0);
+        assert(indented(j0, ind, pend0) + Seq::<char>::empty() + indented(line, ind, pend0) =~= indented(line, ind, pend0));
+    } else {
+        let nl = seq!['\n'];
+        assert(j1 == (j0 + nl) + line);
+        lemma_indented_concat(j0 + nl, line, ind, pend0);
+        lemma_indented_concat(j0, nl, ind, pend0);
+        lemma_indented_nl(ind, pending_after(j0, pend0));
+        assert((j0 + nl).last() == '\n');
+        lemma_indented_line(line, ind, true);
+        if line.len() == 0 { assert(j1 =~= j0 + nl); } else { assert(j1.last() == line.last()); }
+    }
+}
+
